@@ -310,72 +310,91 @@ theorem res_cases (x : Res) : x.ok? = true ∨ x.ok? = false := by cases x <;> s
 /-! ### the per-file check -/
 def File.bodies (f : File) : List Stmts := (f.macros.map fun m => m.body) ++ f.routineBodies
 
-/-- the strip_last_label crash is not reachable: no routine consists of calls of label-only macros -/
-def Guard (imported : List Macro) (f : File) : Prop :=
-  f.routineBodies.any (routineOpsFree (imported ++ f.macros)) = false
+theorem doc_optBody (r : Routine) (g : Stmts → Res) (h : ∀ b, Doc (g b)) : Doc (optBody r g) := by
+  unfold optBody; split
+  · exact h _
+  · exact doc_ok
 
-instance (imported : List Macro) (f : File) : Decidable (Guard imported f) := by unfold Guard; infer_instance
+theorem routinesGo_doc (env : Env) : ∀ (rs : List Routine) (active : Int) (n : Nat), Doc (routinesGo env active n rs)
+  | [], _, _ => by simpa [routinesGo] using doc_ok
+  | r :: rest, active, n => by
+    simp only [routinesGo]
+    exact doc_seq (doc_failIf_ssb _) (doc_seq (doc_optBody r _ fun _ => doc_failIf_ssb _)
+      (doc_seq (doc_failIf_ssb _) (doc_seq (doc_optBody r _ fun b => collectSs_doc env b false false) (routinesGo_doc env rest _ _))))
+
+/-- a routine whose body fails its check (add or collect phase) makes the routine phase fail -/
+theorem routinesGo_fail (env : Env) (r : Routine) (b : Stmts) (hb : r.body = some b)
+    (hf : (bodyCheck env b).ok? = false) : ∀ (rs : List Routine) (active : Int) (n : Nat), r ∈ rs →
+    (routinesGo env active n rs).ok? = false
+  | [], _, _, hm => by cases hm
+  | x :: rest, active, n, hm => by
+    rcases List.mem_cons.mp hm with rfl | hm
+    · simp only [routinesGo, ok?_seq, ok?_failIf, optBody, hb]
+      unfold bodyCheck at hf
+      cases ha : addOkSs env.perf b
+      · simp
+      · simp only [ha, if_true] at hf
+        simp [hf]
+    · have := routinesGo_fail env r b hb hf rest (x.newId active) (if x.newId active ≥ (n : Int) then (x.newId active).toNat + 1 else n) hm
+      simp only [routinesGo, ok?_seq, this, Bool.and_false]
+
+theorem mem_routineBodies {f : File} {b : Stmts} (h : b ∈ f.routineBodies) : ∃ r ∈ f.routines, r.body = some b := by
+  unfold File.routineBodies at h
+  rw [List.mem_filterMap] at h
+  exact h
+
+theorem checkRoutines_doc (cfg : Cfg) (ms : List Macro) (f : File) : Doc (checkRoutines cfg ms f) := by
+  unfold checkRoutines
+  exact doc_seq (routinesGo_doc _ _ _ _) (doc_failIf_ssb _)
+
+/-- every error of the compilation of one file is a documented class -/
+theorem checkLocal_doc (cfg : Cfg) (imported : List Macro) (f : File) (mo : Bool) : Doc (checkLocal cfg imported f mo) := by
+  unfold checkLocal
+  exact doc_seq (doc_failIf_ssb _) (doc_seq (checkBodies_doc _ _) (doc_ite (doc_failIf_ssb _) (checkRoutines_doc _ _ _)))
+
+theorem fail_doc {x : Res} (hd : Doc x) (hf : x.ok? = false) : ∃ e, x = .error e ∧ e ∈ documented := by
+  obtain ⟨e, he⟩ := (ok?_false_iff x).mp hf
+  exact ⟨e, he, hd e he⟩
 
 theorem checkLocal_fail_of_body (cfg : Cfg) (imported : List Macro) (f : File) (b : Stmts) (hb : b ∈ f.bodies)
     (hf : (bodyCheck ⟨cfg.perfVar, imported ++ f.macros⟩ b).ok? = false) :
     ∃ e, checkLocal cfg imported f false = .error e ∧ e ∈ documented := by
+  refine fail_doc (checkLocal_doc cfg imported f false) ?_
   unfold checkLocal
-  simp only [Bool.false_eq_true, if_false]
-  rcases res_cases (failIf (macroCycle f.macros) .ssbCompilerError) with h0 | h0
-  · rw [seq_ok_left h0]
-    rcases List.mem_append.mp hb with hb | hb
-    · exact seq_fail_left (checkBodies_doc _ _) (checkBodies_fail _ _ b hb hf)
-    · rcases res_cases (checkBodies ⟨cfg.perfVar, imported ++ f.macros⟩ (f.macros.map fun m => m.body)) with h1 | h1
-      · rw [seq_ok_left h1]
-        unfold checkRoutines
-        exact seq_fail_left (checkBodies_doc _ _) (checkBodies_fail _ _ b hb hf)
-      · exact seq_fail_left (checkBodies_doc _ _) h1
-  · exact seq_fail_left (doc_failIf_ssb _) h0
+  simp only [Bool.false_eq_true, if_false, ok?_seq]
+  rcases List.mem_append.mp hb with hb | hb
+  · simp [checkBodies_fail _ _ b hb hf]
+  · obtain ⟨r, hr, hrb⟩ := mem_routineBodies hb
+    unfold checkRoutines
+    simp [routinesGo_fail _ r b hrb hf f.routines (-1) 0 hr]
 
 /-- macros-only compilation (an imported file) fails on a defective macro body too -/
 theorem checkLocal_fail_of_macro_body (cfg : Cfg) (imported : List Macro) (f : File) (mo : Bool) (m : Macro)
     (hm : m ∈ f.macros) (hf : (bodyCheck ⟨cfg.perfVar, imported ++ f.macros⟩ m.body).ok? = false) :
     ∃ e, checkLocal cfg imported f mo = .error e ∧ e ∈ documented := by
+  refine fail_doc (checkLocal_doc cfg imported f mo) ?_
   unfold checkLocal
-  simp only []
-  rcases res_cases (failIf (macroCycle f.macros) .ssbCompilerError) with h0 | h0
-  · rw [seq_ok_left h0]
-    exact seq_fail_left (checkBodies_doc _ _) (checkBodies_fail _ _ m.body (List.mem_map.mpr ⟨m, hm, rfl⟩) hf)
-  · exact seq_fail_left (doc_failIf_ssb _) h0
+  simp [checkBodies_fail _ _ m.body (List.mem_map.mpr ⟨m, hm, rfl⟩) hf]
 
-theorem checkLocal_macrosOnly_doc (cfg : Cfg) (imported : List Macro) (f : File) : Doc (checkLocal cfg imported f true) := by
-  unfold checkLocal
-  simp only [if_true]
-  exact doc_seq (doc_failIf_ssb _) (doc_seq (checkBodies_doc _ _) (doc_failIf_ssb _))
-
-theorem checkLocal_doc_of_guard (cfg : Cfg) (imported : List Macro) (f : File) (mo : Bool) (g : Guard imported f) :
-    Doc (checkLocal cfg imported f mo) := by
-  cases mo
-  · unfold checkLocal checkRoutines
-    simp only [Bool.false_eq_true, if_false]
-    refine doc_seq (doc_failIf_ssb _) (doc_seq (checkBodies_doc _ _) (doc_seq (checkBodies_doc _ _) (doc_seq ?_ (doc_failIf_ssb _))))
-    unfold Guard at g
-    rw [g]
-    exact doc_ok
-  · exact checkLocal_macrosOnly_doc cfg imported f
-
-/-- whatever the class: a file whose label phase fails is rejected -/
 theorem checkLocal_fail_of_labels (cfg : Cfg) (imported : List Macro) (f : File)
-    (h : labelsBad (imported ++ f.macros) f = true) : (checkLocal cfg imported f false).ok? = false := by
+    (h : labelsBad (imported ++ f.macros) f = true) :
+    ∃ e, checkLocal cfg imported f false = .error e ∧ e ∈ documented := by
+  refine fail_doc (checkLocal_doc cfg imported f false) ?_
   unfold checkLocal checkRoutines
   simp [h]
 
-theorem checkLocal_fail_of_labels_doc (cfg : Cfg) (imported : List Macro) (f : File) (g : Guard imported f)
-    (h : labelsBad (imported ++ f.macros) f = true) :
-    ∃ e, checkLocal cfg imported f false = .error e ∧ e ∈ documented := by
-  have hf := checkLocal_fail_of_labels cfg imported f h
-  rcases (ok?_false_iff _).mp hf with ⟨e, he⟩
-  exact ⟨e, he, checkLocal_doc_of_guard cfg imported f false g e he⟩
-
 theorem checkLocal_fail_of_cycle (cfg : Cfg) (imported : List Macro) (f : File) (mo : Bool)
     (h : macroCycle f.macros = true) : ∃ e, checkLocal cfg imported f mo = .error e ∧ e ∈ documented := by
+  refine fail_doc (checkLocal_doc cfg imported f mo) ?_
   unfold checkLocal
-  exact seq_fail_left (doc_failIf_ssb _) (by simp [h])
+  simp [h]
+
+/-- a file with routines does not pass a macros-only compilation -/
+theorem checkLocal_macrosOnly_fail_of_routines (cfg : Cfg) (imported : List Macro) (f : File) (h : f.hasRoutines = true) :
+    ∃ e, checkLocal cfg imported f true = .error e ∧ e ∈ documented := by
+  refine fail_doc (checkLocal_doc cfg imported f true) ?_
+  unfold checkLocal
+  simp [h]
 
 /-! ### macro cycles survive peeling -/
 /-- a non-empty set of names, each defined in `ms` by a macro that calls a member of the set -/
@@ -451,27 +470,32 @@ theorem importAll_doc (sub : String → Except ErrKind (List Macro)) (rc : List 
         exact hsub t e he'
       · exact importAll_doc sub rc hsub r _ e h
 
-/-- every error of a macros-only compilation (an imported file, at any depth) is documented -/
-theorem checkFile_macrosOnly_doc (cfg : Cfg) (w : World) : ∀ (fuel : Nat) (rc : List String) (k : String) (e : ErrKind),
-    checkFile cfg w fuel rc k true = .error e → e ∈ documented
-  | 0, rc, k, e, h => by simp [checkFile] at h; subst h; simp [documented]
-  | fuel + 1, rc, k, e, h => by
+/-- every error of a compilation, of the compiled file or of an imported one at any depth, is documented -/
+theorem checkFile_doc (cfg : Cfg) (w : World) : ∀ (fuel : Nat) (rc : List String) (k : String) (mo : Bool) (e : ErrKind),
+    checkFile cfg w fuel rc k mo = .error e → e ∈ documented
+  | 0, rc, k, mo, e, h => by simp [checkFile] at h; subst h; simp [documented]
+  | fuel + 1, rc, k, mo, e, h => by
     simp only [checkFile] at h
     split at h
     · cases h; simp [documented]
     · split at h
-      · cases h
+      · split at h
+        · cases h; simp [documented]
+        · cases h
       · split at h
         · cases h; simp [documented]
         · split at h
           · rename_i e' he'
             cases h
-            exact importAll_doc _ rc (fun s e hs => checkFile_macrosOnly_doc cfg w fuel (rc ++ [k]) s e hs) _ _ e he'
+            exact importAll_doc _ rc (fun s e hs => checkFile_doc cfg w fuel (rc ++ [k]) s true e hs) _ _ e he'
           · split at h
             · rename_i e' he'
               cases h
-              exact checkLocal_macrosOnly_doc cfg _ _ e he'
+              exact checkLocal_doc cfg _ _ mo e he'
             · cases h
+
+theorem checkFile_macrosOnly_doc (cfg : Cfg) (w : World) (fuel : Nat) (rc : List String) (k : String) (e : ErrKind)
+    (h : checkFile cfg w fuel rc k true = .error e) : e ∈ documented := checkFile_doc cfg w fuel rc k true e h
 
 /-- `a` is an ExplorerScript file of the world with an import statement resolving to `b` -/
 def Imports (w : World) (a b : String) : Prop :=
